@@ -743,6 +743,39 @@ func ruleCacheStruct(prefix string) func(r *Run) {
 			}
 			r.Check(bound, "(*cachedRoutes).Set:evicts one victim", w.InstrPos(guard), rem == 1 && !loop && okV, map[bool]string{true: "over capacity exactly one element, the least recently used end, is removed", false: fmt.Sprintf("over capacity %d removal(s) (loop=%v), victim is the LRU end=%v", rem, loop, okV)}[rem == 1 && !loop && okV])
 		}
+		// the capacity the guard compares with is the configured one: every store to the size field (constructor
+		// literal or assignment) stores a parameter of its function as it came in — or the constant 0, which is what
+		// any negative capacity already means for 'Len() > size'. A clamp to 1 ("make() needs a positive hint") turns
+		// a cache configured to hold nothing into one that holds an entry.
+		nSize := 0
+		for _, f := range w.Funcs {
+			for _, st := range storesToField(f, cm.sizeF) {
+				nSize++
+				okS, what := true, ""
+				for _, leaf := range valueLeaves(st.Val) {
+					for {
+						if cv, isCv := leaf.(*ssa.Convert); isCv {
+							leaf = cv.X
+							continue
+						}
+						break
+					}
+					switch x := leaf.(type) {
+					case *ssa.Parameter:
+					case *ssa.Const:
+						if k, isInt := constInt(x); !isInt || k != 0 {
+							okS, what = false, "the constant "+x.Name()
+						}
+					default:
+						if !isLoadOfField(leaf, cm.sizeF) {
+							okS, what = false, "a computed value ("+leaf.Name()+")"
+						}
+					}
+				}
+				r.Check(bound, fmt.Sprintf("%s:capacity stored#%d", FuncName(f), nSize), w.InstrPos(st), okS, map[bool]string{true: "the stored capacity is the caller's parameter (or 0 for a negative one)", false: "the stored capacity can be " + what + " instead of the configured value: the bound that Set enforces is not the one the router was given (a capacity of 0 no longer means 'keep nothing')"}[okS])
+			}
+		}
+		r.Exists(bound, "cachedRoutes.size:stores", token.NoPos, nSize > 0, fmt.Sprintf("%d store(s) to the capacity field", nSize))
 	}
 }
 
@@ -774,7 +807,7 @@ func init() {
 			NotDecided:  []string{"step-by-step equality of twin routers for every request history (history-valued)", "eviction policy (C14)", "handlers mutating Params (excluded by the property's premise)"},
 			Assumptions: []string{"handlers treat Params as read-only; registration is finished before the first request"},
 		},
-		Rules: []ruleFn{{"C07-KEY", ruleCacheKey("C07-KEY")}, {"C07-VALUE", ruleC02Cache("C07-VALUE")}, {"C07-COPY", ruleC07Copy}, {"C01-TIERS", ruleC01Tiers}, {"C07-NODE", ruleCacheStruct("C07")}, {"C07-GUARD", ruleC07Guard}, {"C02-STATIC", ruleC02Static("C02-STATIC")}},
+		Rules: []ruleFn{{"C07-KEY", ruleCacheKey("C07-KEY")}, {"C07-VALUE", ruleC02Cache("C07-VALUE")}, {"C07-COPY", ruleC07Copy}, {"C01-TIERS", ruleC01Tiers}, {"C07-NODE", ruleCacheStruct("C07")}, {"C07-GUARD", ruleC07Guard}, {"C02-STATIC", ruleC02Static("C02-STATIC")}, {"C07-OWN", ruleC07Own}},
 	})
 	register(&property{
 		Meta: propertyMeta{
@@ -802,4 +835,77 @@ func flowsOnlyFromParams(v ssa.Value, f *ssa.Function) bool {
 		return flowsOnlyFromParams(x.X, f)
 	}
 	return false
+}
+
+// C07-OWN: the cache key is METHOD + path, which identifies a route only inside one route table. "The cache never
+// changes what a request observes" therefore needs every router to have a cache of its own: each store into
+// Router.cachedRoutes stores nil or a container allocated by that very activation (a NewCachedRoutes call, or a
+// cachedRoutes literal, made in the function that stores it). A container that comes in from outside — a variable
+// captured by an option closure, a parameter, a package-level value — can be shared by two routers, and the second
+// one is answered with the routes the first one cached.
+func ruleC07Own(r *Run) {
+	w := r.W
+	rule := "C07-OWN"
+	r.Floor(rule, 1)
+	tm := newTierModel(w)
+	crT := w.Named("rux", "cachedRoutes")
+	n := 0
+	for _, f := range w.Funcs {
+		for _, st := range storesToField(f, tm.cached) {
+			n++
+			okO, what := true, ""
+			for _, leaf := range valueLeaves(st.Val) {
+				switch x := leaf.(type) {
+				case *ssa.Const:
+					if !isNilConst(x) {
+						okO, what = false, "a constant"
+					}
+				case *ssa.Call:
+					sc := staticCallee(x)
+					fresh := sc != nil && w.InModule(sc) && sc.Signature.Results().Len() == 1 && isNamedPtr(sc.Signature.Results().At(0).Type(), crT) && allReturnsFresh(sc, crT)
+					if !fresh || x.Parent() != f {
+						okO, what = false, "the result of "+calleeName(x)
+					}
+				case *ssa.Alloc:
+					if x.Parent() != f || !isNamedPtr(x.Type(), crT) {
+						okO, what = false, "a variable"
+					}
+				case *ssa.FreeVar:
+					okO, what = false, "the captured variable "+x.Name()+" (one container for every router the closure is applied to)"
+				case *ssa.Parameter:
+					okO, what = false, "the parameter "+x.Name()
+				case *ssa.UnOp:
+					if fv, isFV := x.X.(*ssa.FreeVar); isFV && x.Op == token.MUL {
+						okO, what = false, "the captured variable "+fv.Name()+" (one container for every router the closure is applied to)"
+					} else {
+						okO, what = false, "a value loaded from elsewhere ("+leaf.Name()+")"
+					}
+				default:
+					okO, what = false, "a value that is not allocated here ("+leaf.Name()+")"
+				}
+			}
+			r.Check(rule, fmt.Sprintf("%s:store Router.cachedRoutes#%d", FuncName(f), n), w.InstrPos(st), okO, map[bool]string{true: "the router gets a container allocated by this activation (or nil)", false: "the router's cache container can be " + what + ": two routers can end up with the same cache, and METHOD+path of one route table answers requests of the other"}[okO])
+		}
+	}
+}
+
+// allReturnsFresh: every return of the constructor is a cachedRoutes allocated in it.
+func allReturnsFresh(f *ssa.Function, t *types.Named) bool {
+	if f.Blocks == nil {
+		return false
+	}
+	ok, n := true, 0
+	eachInstr(f, func(in ssa.Instruction) {
+		ret, isRet := in.(*ssa.Return)
+		if !isRet || len(ret.Results) != 1 {
+			return
+		}
+		n++
+		for _, leaf := range valueLeaves(ret.Results[0]) {
+			if a, isA := leaf.(*ssa.Alloc); !isA || a.Parent() != f || !isNamedPtr(a.Type(), t) {
+				ok = false
+			}
+		}
+	})
+	return ok && n > 0
 }
